@@ -900,7 +900,7 @@ Qed.
 Lemma inclass_hyps i : inclass_C12 i = true -> class_hyps lit_c parse_c untext_c (i_db i) (i_start i) (i_steps i).
 Proof.
   unfold inclass_C12, start_okb. intros H.
-  apply andb_true_iff in H as [H H3]. apply andb_true_iff in H as [T R].
+  apply andb_true_iff in H as [H _]. apply andb_true_iff in H as [H H3]. apply andb_true_iff in H as [T R].
   apply andb_true_iff in H3 as [H3 NE]. apply andb_true_iff in H3 as [H3 M]. apply andb_true_iff in H3 as [D ND].
   unfold no_tab_in_literalsb in T. apply andb_true_iff in T as [T1 T2].
   unfold lits_roundtripb in R. rewrite forallb_forall in R, T1, T2.
@@ -911,7 +911,8 @@ Qed.
 Theorem main_concrete i : inclass_C12 i = true -> C12_holds i (model_C12 i).
 Proof.
   intros H. pose proof (outcome_sim lit_c parse_c untext_c (i_cfg i) _ _ _ (inclass_hyps i H)) as O.
-  unfold C12_holds, model_C12; cbn [o_on o_off].
+  assert (RS : resolvesb i = true) by (unfold inclass_C12 in H; now apply andb_true_iff in H as [_ H]).
+  unfold C12_holds, model_C12; cbn [o_on o_off]. rewrite RS.
   destruct (offline_outcome lit_c parse_c untext_c (i_cfg i) (i_db i) (i_start i) (i_steps i)),
            (online_outcome lit_c parse_c untext_c (i_cfg i) (i_db i) (i_steps i)); simpl; try contradiction; auto.
 Qed.
@@ -919,16 +920,17 @@ Qed.
 (* ================================================================ G. witnesses *)
 (* create_table + bulk_insert of 'tab<TAB>here' from base *)
 Definition wit_tab : c12_in :=
-  mkIn (mkU [] [], None) [] [mkStep [CreateTable 0 [mkCol 0 2 None false] []; BulkInsert 0 [[Some (VText [116; 97; 98; 9; 104; 101; 114; 101])]]] [VIns 0]] [] (mkCfg None false).
+  mkIn (mkU [] [], None) SpBase [] [mkStep [CreateTable 0 [mkCol 0 2 None false] []; BulkInsert 0 [[Some (VText [116; 97; 98; 9; 104; 101; 114; 101])]]] [VIns 0]] [] (mkCfg None false).
 (* `upgrade base:base --sql`: nothing to do, yet the script drops the version table *)
-Definition wit_empty_plan : c12_in := mkIn (mkU [] [], None) [] [] [] (mkCfg None false).
+Definition wit_empty_plan : c12_in := mkIn (mkU [] [], None) SpBase [] [] [] (mkCfg None false).
 (* a database at base whose (empty) version table is still there *)
 Definition wit_empty_vt : c12_in :=
-  mkIn (mkU [] [], Some []) [] [mkStep [CreateTable 0 [mkCol 0 0 None false] []; BulkInsert 0 [[Some (VInt 1)]]] [VIns 0]] [] (mkCfg None false).
+  mkIn (mkU [] [], Some []) SpBase [] [mkStep [CreateTable 0 [mkCol 0 0 None false] []; BulkInsert 0 [[Some (VInt 1)]]] [VIns 0]] [] (mkCfg None false).
 (* a branched plan inside the class: r0 <- r1, r0 <- r2 applied from r0; defaults, NOT NULL, a primary key, a unique index,
    omitted / None cells, a backslash-colon escape *)
 Definition wit_ok : c12_in :=
-  mkIn (mkU [mkTable 0 [mkCol 0 1 None true; mkCol 1 0 (Some (VInt 3)) false] [[0]] [[VText [105; 116; 39; 115]; VNull]]] [], Some [0]) [0]
+  mkIn (mkU [mkTable 0 [mkCol 0 1 None true; mkCol 1 0 (Some (VInt 3)) false] [[0]] [[VText [105; 116; 39; 115]; VNull]]] [], Some [0])
+       (SpKey [109; 97; 105; 110]) [mkR 0 [97; 49; 98; 50; 99; 51] [[109; 97; 105; 110]] false; mkR 1 [97; 49; 98; 57; 100; 52] [] true; mkR 2 [98; 55; 99; 56; 100; 57] [] true]
        [mkStep [AddColumn 0 (mkCol 2 4 (Some (VNum [49; 46; 53])) true);
                 BulkInsert 0 [[Some (VText [39; 39]); Some VNull; None]; [Some (VText [107]); None; Some (VNum [50; 46; 53])]]; CreateIndex 0 0 [2; 0] true] [VUpd 0 1];
         mkStep [CreateTable 1 [mkCol 3 2 (Some (VText [100])) false] [];
@@ -936,7 +938,8 @@ Definition wit_ok : c12_in :=
                 Execute (RUpdateAll 0 1 [55])] [VIns 2]] [32; 9; 120; 32] (mkCfg (Some true) true).
 (* the same plan, but the second bulk row repeats the primary key of the first: both runs stop there *)
 Definition wit_abort : c12_in :=
-  mkIn (mkU [mkTable 0 [mkCol 0 1 None true; mkCol 1 0 None false] [[0]] []] [], Some [0]) [0]
+  mkIn (mkU [mkTable 0 [mkCol 0 1 None true; mkCol 1 0 None false] [[0]] []] [], Some [0])
+       (SpPrefix [97; 49; 98; 50]) [mkR 0 [97; 49; 98; 50; 99; 51] [] false; mkR 1 [97; 49; 98; 57; 100; 52] [] true]
        [mkStep [CreateTable 1 [mkCol 2 0 None false] [];
                 BulkInsert 0 [[Some (VText [97]); Some (VInt 1)]; [Some (VText [98]); None]; [Some (VText [97]); Some (VInt 2)]]] [VUpd 0 1]] [] (mkCfg None false).
 
@@ -1034,7 +1037,7 @@ Lemma text_nonvacuous :
   (forall s, supported_c s = true -> stext_wf (render_c s) = true) /\
   (forall s g core', supported_c s = true -> Forall2 (tok_sim g) (st_core (render_c s)) core' ->
                      sqlite_c (flat core' ++ [59]) = Some (map_stmt g s)) /\
-  inclass_C12 (mkIn toy_db [] toy_steps [] (mkCfg None false)) = true /\
+  inclass_C12 (mkIn toy_db SpBase [] toy_steps [] (mkCfg None false)) = true /\
   (forall l, run_offline_plain lit_c untext_c [] toy_steps = Some l -> forallb supported_c l = true) /\
   exists d, offline_text_effect lit_c parse_c untext_c render_c sqlite_c [59] toy_db [] toy_steps = Some d /\
             ob_vers (observable d) = [5] /\ map (fun t => length (t_rows t)) (ob_tabs (observable d)) = [1%nat].
